@@ -160,6 +160,12 @@ def generate(loader):
     # ---- correlation --------------------------------------------------------------------------
     out.append(emit("gen_ncc", ["eps"], xy, L.ncc_loss(x, y, epsilon=eps, reduction="none"),
                     "ncc_loss(x, y, epsilon=eps, reduction='none'), one batch item"))
+    out.append(emit("gen_ncc_mask", ["eps"], xyw, L.ncc_loss(x, y, mask=w, epsilon=eps, reduction="none"),
+                    "ncc_loss(x, y, mask=w, epsilon=eps, reduction='none'): weighted normalized cross correlation"))
+    xbm, ybm, wbm = sym("x", (2, 2, 1, 2)), sym("y", (2, 2, 1, 2)), sym("w", (1, 1, 1, 2))
+    out.append(emit("gen_ncc_mask_bcast", ["eps"], [("x", xbm), ("y", ybm), ("w", wbm)],
+                    L.ncc_loss(xbm, ybm, mask=wbm, epsilon=eps, reduction="sum"),
+                    "ncc_loss on a (2, 2, 1, 2) batch with a (1, 1, 1, 2) mask, reduction='sum'"))
     xbn, ybn = sym("x", (2, 1, 1, 2)), sym("y", (2, 1, 1, 2))
     out.append(emit("gen_ncc_batch_mean", ["eps"], [("x", xbn), ("y", ybn)],
                     L.ncc_loss(xbn, ybn, epsilon=eps, reduction="mean"),
